@@ -10,6 +10,8 @@ def run(R, tier, seed, only=None):
     kchecks.check_take(R, drv, tier, want=("panic",))
     kchecks.check_frame(R, drv, tier, want=("panic",))
     kchecks.check_lit(R, drv, tier)
+    kchecks.check_roll(R, drv, tier, want=("panic",))
+    kchecks.check_json_prim(R, drv, tier)
     drv.close()
     R.cov["bounds"] = {"take_ranges": "k <= 2 (quick) / 3 (thorough) consecutive takes, every bound any i64 or absent", "integers": "64-bit bit-vectors, overflow checks on (dev profile)"}
     R.cov["traces_validated_against_impl"] = R.cov["queries"].get("sat", 0)
@@ -17,7 +19,8 @@ def run(R, tier, seed, only=None):
     R.cov["trusted_base"] = ["z3 5.1.0", "rustc nightly MIR front end", "engines/mirsym (MIR interpreter + std models listed in models_used)"]
     R.cov["outside_bounds"] = ["panics reachable only through tree-shaped data (unpack, todo!, cid lookups, error composition)", "stack exhaustion", "running time", "lexer/parser/resolver"]
     R.assumptions += ["source entry: take bounds satisfy validate_take_range (>= 1); rq-json entry: no precondition",
-                      "try_range_into_int is stubbed: ranges arrive as integer ranges, the non-integer error path is a separate alternative"]
+                      "try_range_into_int is stubbed: ranges arrive as integer ranges, the non-integer error path is a separate alternative",
+                      "serde_json::Number is modelled by its documented contract over N::{PosInt(u64), NegInt(i64<0), Float}: is_i64, is_f64, as_i64, as_f64"]
 
 
 def replay(path):
